@@ -29,6 +29,9 @@ func C13parse(p *load.Program, run *report.Run) {
 	info := pkg.TypesInfo
 	var tuples [][]int
 	ws := []int{1, 3, 8, 13}
+	if Deep {
+		ws = []int{1, 2, 3, 7, 8, 9, 13, 16, 31}
+	}
 	for _, a := range ws {
 		tuples = append(tuples, []int{a})
 		for _, b := range ws {
